@@ -58,6 +58,7 @@ RULE_GROUPS: Dict[str, Callable] = {
     'st.finish_predicates': st.rule_finish_predicates,
     'st.ready_strict': st.rule_ready_strict,
     'st.store_contract': st.rule_store_contract,
+    'st.stores_independent': st.rule_stores_independent,
     'st.case_selection_worlds': st.rule_case_selection_worlds,
     'st.case_dag_worlds': st.rule_case_dag_worlds,
     'rd.launch_gated': rd.rule_launch_gated,
@@ -314,6 +315,7 @@ RULES: Dict[str, Tuple[str, str]] = {
                                 'for visible final values (abstract interpretation over all store states)'),
     'SW-8': ('st.case_dag_worlds', 'the sub-dag run for the selected case holds the case and everything it depends on'),
     'SW-7': ('st.case_selection_worlds', 'a returned label records its own case; a value no case has fails the run'),
+    'ST-4': ('st.stores_independent', 'after re-arming, publishing into one store of the storage leaves the node hidden in every other store'),
     'SW-4': ('st.store_contract', 're-arming a node hides it in every store that readiness, ordering or routing reads'),
     'ST-1': ('st.store_contract', 'publishing into a store makes the entry visible with exactly the published value from every '
                                   'prior state (absent, hidden, visible)'),
@@ -774,6 +776,8 @@ _add('C16', 'BN-7')
 _add('C15', 'BN-7')
 _add('C07', 'BN-7')
 _add('C07', 'SH-13')
+for _pid in ('C02', 'C03', 'C09', 'C11'):
+    _add(_pid, 'ST-4')
 _add('C11', 'RC-11')
 _add('C02', 'RC-11')
 _add('C02', 'PB-1')
